@@ -46,6 +46,7 @@ import (
 	pb "github.com/ozontech/seq-db/pkg/storeapi"
 	"github.com/ozontech/seq-db/seq"
 	"github.com/ozontech/seq-db/storeapi"
+	"github.com/ozontech/seq-db/verifhook"
 
 	"verifharness/env"
 )
@@ -770,6 +771,20 @@ func (r *runner) dropOthers(keep frac.Fraction) {
 	}
 }
 
+// one process-wide hook (workers seal concurrently): at the sync of a fraction's ._index file the callback registered
+// for that fraction's data directory runs
+var sealProbes sync.Map
+
+func init() {
+	verifhook.Set(func(point string, obj any, a, b int64) {
+		if name, _ := obj.(string); point == "file.sync" && strings.HasSuffix(name, "._index") {
+			if f, ok := sealProbes.Load(filepath.Dir(name)); ok {
+				f.(func())()
+			}
+		}
+	})
+}
+
 func runCase(c *Case) {
 	base := uint64(1_000_000)
 	if c.I%2 == 1 {
@@ -826,7 +841,18 @@ func runCase(c *Case) {
 		case "sealed":
 			// SealForcedForTests seals in the calling goroutine, so a panic of the sealer can be observed here
 			// (in a running store it happens in the maintenance goroutine and kills the process).
-			if what := safely(func() string { e.Seal(); return "" }); what != "" {
+			// while the seal is running the fraction still answers from its active form (proxyFrac serves the active
+			// fraction until the sealed copy is published): at the moment the index file is complete (hook between its
+			// sync and its rename) the active form is asked again - sealing must not have touched what it serves
+			var during atomic.Bool
+			sealProbes.Store(r.e.O.Dir, func() {
+				if during.CompareAndSwap(false, true) {
+					r.probe("active-during-seal", true)
+				}
+			})
+			sealWhat := safely(func() string { e.Seal(); return "" })
+			sealProbes.Delete(r.e.O.Dir)
+			if what := sealWhat; what != "" {
 				abandoned = true
 				again := "not retried"
 				if err := r.reopen(c.Cfg.Cache); err == nil { // what a restart after the crash does
